@@ -64,7 +64,7 @@ def render(s):
     L.append("    }")
     call = None
     if compilable(s):
-        L.append("    pub fn client() {")
+        L.append("    #[deny(unused_unsafe)] pub fn client() {")
         L.append("        let app = ::entrait::Impl::new(());")
         L.append("        let mut got: Vec<String> = Vec::new();")
         for n, sym in enumerate(s["items"], 1):
@@ -77,7 +77,7 @@ def render(s):
         call = 'rt::run("%s", %s::client);' % (key, key)
     L.append("}")
     if compilable(s) and s["vis"]:
-        L.append("fn outer_%s() -> String {" % key)
+        L.append("#[deny(unused_unsafe)] fn outer_%s() -> String {" % key)
         L.append("    use crate::%s::Tr as Renamed;" % key)
         L.append("    let app = ::entrait::Impl::new(());")
         L.append("    let mut got: Vec<String> = Vec::new();")
